@@ -1384,6 +1384,15 @@ class FloatGen:
         if op == "Sum":
             return ["Sum", [sub()[0] for _ in range(self.i(2, 4))]]
         if op == "Sub":
+            if self.i(0, 4) == 0:
+                # nothing but subtracted terms, each starting with a negative literal:
+                # the signs of the sum and of the literals must not run together
+                ks = []
+                for _ in range(self.i(2, 3)):
+                    m1 = C(-1) if self.i(0, 2) else F(-1.0)
+                    neg = self.pick((C(-2), C(-3), F(-2.5), F(-0.5)))
+                    ks.append(["Product", [m1, neg, sub()[0]]])
+                return ["Sum", ks]
             ks = [sub()[0] for _ in range(self.i(1, 2))]
             for _ in range(self.i(1, 2)):
                 c = self.i(0, 5)
